@@ -26,11 +26,11 @@ def builds(quick):
 def run(ctx):
     ref_bin = vlib.build_harness()
     ctx.rule = ("the same TLC-generated histories (C01 model families incl. windows on both sides of the cache and 8-slot switches; "
-                "C06 tag-model families) replayed by the harness compiled against vaporetto with each feature subset of "
+                "C06 tag-model families; sentence-API call histories with writers and token iterator) replayed by the harness compiled against vaporetto with each feature subset of "
                 "{std, cache-type-score, fix-weight-length, tag-prediction, charwise-pma} (quick: none, each single feature, each "
                 "single feature removed; thorough: all 32 subsets + portable-simd on nightly); Trace_Pair requires the observations "
                 "of every build to equal the default build's; non-trivial = (build, history) pair with a non-bias score")
-    sc = _score.generate(ctx, True, only=["F1-char-ngrams", "F2-ngram-and-word", "F3-wide-windows", "F4-type-ngrams", "F6-mixed", "F7-type-gaps"])
+    sc = _score.generate(ctx, True, only=["F1-char-ngrams", "F2-ngram-and-word", "F3-wide-windows", "F4-type-ngrams", "F6-mixed", "F7-type-gaps", "F10-cancelling"])
     stride = max(1, len(sc) // (240 if ctx.quick else 500))
     score_h = []
     for fam, c in sc[::stride]:
@@ -59,6 +59,13 @@ def run(ctx):
     multi = [c for c in lc if sum(1 for o in c["ops"][:-14] if o["op"] == "predict") >= 2]
     for k, c in enumerate(multi[:: max(1, len(multi) // (120 if ctx.quick else 600))]):
         t_send.append({"id": 5 * 10 ** 6 + k, "kind": "history", "preds": lpreds, "ops": c["ops"], "opts": {"writers": False}})
+    # the sentence API itself (parsers, updates, tag resets, hand-set labels, filters, writers, token iterator) on call histories
+    # without tag prediction: every build - also those without `tag-prediction` - must observe the same states and write the same lines
+    plain_preds = [dict(p, tags=False, store=False) for p in lpreds]
+    n_send = []
+    for k, c in enumerate(lc[:: max(1, len(lc) // (150 if ctx.quick else 900))]):
+        n_send.append({"id": 6 * 10 ** 6 + k, "kind": "history", "preds": plain_preds, "ops": [o for o in c["ops"] if o["op"] != "fill_tags"],
+                       "opts": {"writers": True, "reparse": False}})
     # seeded random (model, texts) cases, generated once and replayed under every build
     gen = vlib.record_events(ref_bin, "gencases", 360 if ctx.quick else 1500, ctx.seed, "C13-gencases")
     for g in gen:
@@ -67,6 +74,7 @@ def run(ctx):
         (t_send if wt else s_send).append(g)
     ref_s = vlib.run_replay(ref_bin, s_send, "C13-ref-score")
     ref_t = vlib.run_replay(ref_bin, t_send, "C13-ref-tags")
+    ref_n = vlib.run_replay(ref_bin, n_send, "C13-ref-sentence-api")
     # model files must survive every build: read_slice + to_vec reproduces the bytes (tag models included)
     import json, os
     from props import C07
@@ -125,9 +133,11 @@ def run(ctx):
             # builds without tag prediction still predict boundaries on models that carry tag models: scores and labels must
             # equal those of the default build (which predicted tags as well)
             sets.append((t_send, ref_t, vlib.run_replay(keep, t_send, f"C13-{tag}-tagmodels"), "predict-only"))
+        sets.append((n_send, ref_n, vlib.run_replay(keep, n_send, f"C13-{tag}-sentence-api"), "full"))
         for item in sets:
             snd, ref, obs = item[0], item[1], item[2]
-            only_predict = len(item) > 3
+            only_predict = len(item) > 3 and item[3] == "predict-only"
+            full_view = len(item) > 3 and item[3] == "full"
             for d in snd:
                 x, y = ref[d["id"]], obs[d["id"]]
                 ok = "steps" in x and "steps" in y and x.get("preds") == y.get("preds")
@@ -135,6 +145,8 @@ def run(ctx):
                 def view(o):
                     if "steps" not in o:
                         return []
+                    if full_view:
+                        return o["steps"]
                     st = C14.strip(o["steps"])
                     if only_predict:
                         return [{"res": s["res"], "scores": s["proj"].get("scores") if isinstance(s["proj"], dict) else s["proj"],
